@@ -8,11 +8,15 @@ using namespace vp;
 
 struct alignas(16) S16 { unsigned char b[16]; };
 struct alignas(64) S64 { unsigned char b[64]; };
+struct B3 { unsigned char b[3]; };                 // sizeof > alignof: element larger than the alignment
+struct B24 { unsigned long long q[3]; };
+struct alignas(16) B48 { unsigned char b[48]; };
 
 #define ALLOC_TABLE(X) \
     X(0, char, 1) X(1, char, 16) X(2, char, 32) X(3, char, 64) X(4, char, 4096) X(5, unsigned short, 2) X(6, unsigned short, 32) X(7, unsigned int, 4) X(8, unsigned int, 64) \
-    X(9, unsigned long long, 8) X(10, unsigned long long, 128) X(11, S16, 16) X(12, S16, 256) X(13, S64, 64) X(14, S64, 1024) X(15, unsigned char, 8)
-enum { NTARGETS = 16 };
+    X(9, unsigned long long, 8) X(10, unsigned long long, 128) X(11, S16, 16) X(12, S16, 256) X(13, S64, 64) X(14, S64, 1024) X(15, unsigned char, 8) \
+    X(16, B3, 1) X(17, B3, 2) X(18, B24, 8) X(19, B24, 16) X(20, B48, 16) X(21, B3, 64)
+enum { NTARGETS = 22 };
 
 extern "C" const VpTarget* vp_targets(uint32_t* n) {
     static VpTarget t[NTARGETS];
@@ -176,5 +180,5 @@ extern "C" void vp_enum(int tier, uint64_t seed, uint32_t shard, uint32_t nshard
     }
 }
 extern "C" void vp_sweep(int tier, uint64_t, uint32_t, uint32_t, void (*)(const VpCase*, void*), void*, uint64_t*, uint64_t*, char* d, size_t cap) {
-    std::snprintf(d, cap, "every n in 0..%s for 16 (T, A) instantiations in a fixed three-block history with a non-LIFO free, a rebound allocation and a std::vector", tier ? "4096 (stepped above 130)" : "300 (stepped above 130)");
+    std::snprintf(d, cap, "every n in 0..%s for 22 (T, A) instantiations in a fixed three-block history with a non-LIFO free, a rebound allocation and a std::vector", tier ? "4096 (stepped above 130)" : "300 (stepped above 130)");
 }
